@@ -207,6 +207,17 @@ func (p *Packer) packWalkFn(root, src, dst string, tarW *tar.Writer, meta *Meta,
 			return nil
 		}
 
+		// Get the relative path from the initial root directory: the path the
+		// file gets in the archive. The ignore rules are about that path; inside
+		// a dereferenced directory it differs from the path relative to src.
+		subpath, err = filepath.Rel(root, strings.Replace(path, src, dst, 1))
+		if err != nil {
+			return fmt.Errorf("failed to get relative path for file %q: %w", path, err)
+		}
+		if subpath == "." {
+			return nil
+		}
+
 		if r := matchIgnoreRules(subpath, ignoreRules); r.Excluded {
 			return nil
 		}
@@ -221,15 +232,6 @@ func (p *Packer) packWalkFn(root, src, dst string, tarW *tar.Writer, meta *Meta,
 					return nil
 				}
 			}
-		}
-
-		// Get the relative path from the initial root directory.
-		subpath, err = filepath.Rel(root, strings.Replace(path, src, dst, 1))
-		if err != nil {
-			return fmt.Errorf("failed to get relative path for file %q: %w", path, err)
-		}
-		if subpath == "." {
-			return nil
 		}
 
 		// Check the file type and if we need to write the body.
